@@ -120,6 +120,9 @@ func schedOverlay(real map[string]string, dir string) error {
 		if base == "zz_verif_rt.go" || base == "zz_verif_replay_test.go" || !strings.HasPrefix(base, "zz_verif_") {
 			continue // the runtime, the shims and the environment overlays (table-driven hasher, replayed random numbers) are not part of any schedule
 		}
+		if rp == "" {
+			continue
+		}
 		src, err := os.ReadFile(rp)
 		if err != nil {
 			return err
